@@ -287,7 +287,7 @@ def run(tier, seed):
     cfg = make_cfg("c07", seed, 1 if q else 2)
     cfg_new = make_cfg("c07n", seed, 1, envs=("new",))
     depth = {"h5": 2 if q else 4, "ih5": 2 if q else 3}
-    budget = 170 if q else 2400
+    budget = 600 if q else 2400
     t0 = time.time()
     fam, violations, samples = {}, [], []
     cfg_odd = make_cfg("c07odd", seed, 1, names=c06.ODD_NAMES)
